@@ -357,6 +357,7 @@ def c05(ctx):
 def c08(ctx):
     from .rules import dml, codec, flush
     dml.pairs(ctx)
+    dml.rows_loaded(ctx)
     dml.cat_sym(ctx)
     flush.dirty1(ctx)
     flush.dirty2(ctx)
@@ -382,6 +383,12 @@ def c20(ctx):
     inv = inventory(prog)
     from .rules import dml as _dml
     _dml.cap_panic_guard(ctx)
+    from .rules import codec as _codec
+    _codec.short_ref_bound(ctx, "LIMIT-SYM")
+    _dml.rows_loaded(ctx)
+    from .rules import streams as _streams
+    ctx.rule("NAME-1", "streamname::is_valid admits exactly the names whose encoded form has at most 31 UTF-16 units (table names validated with the marker character counted)")
+    _streams.name_limit(ctx, "NAME-1")
     ctx.rule("PANIC(capacity)", PANIC_TEXT)
     entries = [prog.fn("msi::internal::package::Package::<F>::" + n) for n in ("insert_rows", "update_rows", "delete_rows", "create_table", "drop_table", "write_stream")]
     n = inv.run(ctx, "PANIC(capacity)", entries, only=lambda f: f.file in ("src/internal/stringpool.rs", "src/internal/query.rs", "src/internal/table.rs", "src/internal/value.rs"),
@@ -403,6 +410,7 @@ def c03(ctx):
     dml.key_set(ctx)
     dml.info_key(ctx)
     dml.limits(ctx)
+    dml.rows_loaded(ctx)
     from .rules import flush
     flush.dirty1(ctx)
     flush.dirty2(ctx)
